@@ -19,6 +19,7 @@ From Coquelicot Require Import Coquelicot.
 From PV Require Import Num NumR Model_pathlines Proofs_velocity Proofs_pathlines.
 From PV Require Import Model_pathline_session Proofs_pathline_session.
 From PV Require Import Inst_velocity Inst_pathlines Proofs_pathline_gen Proofs_pathline_exact.
+From PV Require Import Model_pathline_options Proofs_pathline_options.
 From PV.gen Require Import Gen_velocity Gen_velocity_utils Gen_pathlines.
 Import ListNotations.
 Open Scope R_scope.
@@ -505,3 +506,49 @@ Example C18_exact_nonvacuous :
      exists v, @ivp_func NumR gv mn mx (x t) = Ok v /\
        forall k, (k < length mn)%nat -> is_derive (fun s => nth k (x s) 0) t (nth k v 0).
 Proof. exact exact_hypotheses_satisfiable. Qed.
+
+(* --- the SOLVER OPTIONS of a sequence of get_pathline calls (Model_pathline_options.v) ------------- *)
+(* `requests Fresh d calls` = the request vectors handed to solve_ivp by the call history `calls` made in a
+   process whose defaults hold `d` (the current source: defaults are literals, evaluated at every call).
+   The requests of a history are the map of the single call and the defaults are never written ... *)
+Theorem C18_options_requests_are_map : forall (d : @opts NumR) (calls : list (@ocall NumR)),
+  requests Fresh d calls = map req_of_call calls /\ defaults_after Fresh d calls = d.
+Proof. exact (fun d calls => conj (requests_fresh_map d calls) (defaults_untouched d calls)). Qed.
+
+(* ... the request of a call depends neither on earlier calls (h1 / h2), nor on later ones (t1 / t2), nor on
+   what the defaults held (d1 / d2) ... *)
+Theorem C18_options_request_history_independent :
+  forall (d1 d2 : @opts NumR) (h1 h2 t1 t2 : list (@ocall NumR)) (c : @ocall NumR) (z : list R),
+  nth (length h1) (requests Fresh d1 (h1 ++ c :: t1)) z = req_of_call c /\
+  nth (length h1) (requests Fresh d1 (h1 ++ c :: t1)) z = nth (length h2) (requests Fresh d2 (h2 ++ c :: t2)) z.
+Proof. exact (@request_history_independent NumR). Qed.
+
+(* ... so a PLAIN call (no optional keyword argument) makes, anywhere in ANY history -- in particular after
+   calls that passed method / atol / rtol / first_step / max_step / t_eval -- exactly the request GENERATED
+   from the source, and a call with the traced keyword arguments the generated keyword request *)
+Theorem C18_options_plain_call_request_is_generated :
+  forall (d : @opts NumR) (h t : list (@ocall NumR)) (fl mn mx : list R) (ms : R) (z : list R),
+  length fl = 3%nat ->
+  A (nth (length h) (requests Fresh d (h ++ (fl, ms, no_opts) :: t)) z) = @k_request_n3 NumR (A fl) (A mn) (A mx) ms.
+Proof. exact plain_call_request_is_generated. Qed.
+
+Theorem C18_options_kw_call_request_is_generated :
+  forall (d : @opts NumR) (h t : list (@ocall NumR)) (fl mn mx : list R) (ms atol rtol fs mxs : R) (z : list R),
+  length fl = 3%nat ->
+  A (nth (length h) (requests Fresh d (h ++ (fl, ms, kw_opts atol rtol fs mxs) :: t)) z)
+  = @k_request_kw_n3 NumR (A fl) (A mn) (A mx) ms atol rtol fs mxs.
+Proof. exact kw_call_request_is_generated. Qed.
+
+(* defaults that are updated in place (a mutable default argument, seeded change C18e) are excluded: after one
+   call with rtol = r the plain call would ask for rtol = r, the current source asks for the literal 1e-5 *)
+Theorem C18_options_sticky_defaults_refuted : forall (fl1 fl2 : list R) (ms1 ms2 r : R) (z : list R),
+  length fl2 = 3%nat -> r <> @default_rtol NumR ->
+  let o := @mk_opts NumR None (Some r) None None None 0 0 in
+  let hist : list (@ocall NumR) := [(fl1, ms1, o); (fl2, ms2, @no_opts NumR)] in
+  nth 7 (nth 1 (requests Sticky no_opts hist) z) 0 = r /\
+  nth 7 (nth 1 (requests Fresh no_opts hist) z) 0 = @default_rtol NumR /\
+  nth 1 (requests Sticky no_opts hist) z <> nth 1 (requests Fresh no_opts hist) z.
+Proof. exact sticky_defaults_refuted. Qed.
+
+Example C18_options_nonvacuous : (2 / 10 : R) <> @default_rtol NumR.
+Proof. exact sticky_hypotheses_satisfiable. Qed.
